@@ -159,11 +159,45 @@ def stream_session_reset(prog, res):
     res.need(R, 3)
 
 
+def legacy_checksum_siblings(prog, res):
+    """T9 (siblings): of the legacy formats only v0.7 carries a frame checksum.  Every legacy decoder function that feeds decoded
+    bytes into the frame hash (XXH64_update) also compares the digest, with a checksum_wrong exit; and when the feeding sits in
+    the function's own block loop (the one-shot decoder), no path leads from it to a non-error return without passing the
+    digest or the edge on which the frame has no checksum."""
+    R = "T9.legacy-accumulate-implies-verify"
+    n = 0
+    for f in prog.all_functions():
+        if not f.file.startswith("lib/legacy/"):
+            continue
+        upd = f.call_roots(("XXH64_update", "ZSTD_XXH64_update"))
+        if not upd:
+            continue
+        n += 1
+        dig = f.call_roots(("XXH64_digest", "ZSTD_XXH64_digest"))
+        cmp_ = [g for g in guards.guard_sites(f) if "checksum_wrong" in g.codes and g.op == "!="]
+        res.check(bool(dig) and bool(cmp_), R, f.name + ":digest-compared", f.loc, "the digest is compared and a mismatch returns checksum_wrong",
+                  "%s feeds the frame hash and never compares it: a damaged v0.7 frame is decoded with success (altered bytes returned)" % f.name)
+        looped = [t for t in upd if t in f.flow([(t[0], t[1] + 1)])]
+        if looped:
+            noflag = flag_edges(f, "checksumFlag", "false")
+            okret = [(b, i) for b, i, r in f.returns() if r.get("e") is not None and strip_casts(r["e"]).get("k") == "bin" and strip_casts(r["e"]).get("op") == "-"
+                     and not any("ZSTD_error_" in (y.get("n") or "") for y in walk(r["e"]))]
+            # the loop is left from its end-of-frame arm (`case bt_end`); starting there keeps the infeasible path
+            # "some other case, then `blockType == bt_end`" out of the question
+            ends = case_blocks(f, ("bt_end",))
+            ok = bool(dig) and bool(okret) and bool(ends) and f.must_pass(via_roots=dig, via_edges=noflag, starts=[(b, 0) for b in ends], targets=okret)
+            res.check(ok, R, f.name + ":loop-ends-through-the-digest", f.loc, "the end-of-frame arm reaches the size return only through the digest (or without checksum)",
+                      "%s: a path from the end-of-frame arm to the success return skips the digest" % f.name)
+            n += 1
+    res.need(R, 3)
+
+
 def run(tier):
     res = Result("C09", tier)
-    tus, info = extract(["decompress", "compress"])
+    tus, info = extract(["decompress", "compress", "legacy"])
     prog = Program(tus)
     res.info = info
+    legacy_checksum_siblings(prog, res)
     R = "T3.cut"
 
     # ---- ZSTD_decompressFrame -----------------------------------------------------------
